@@ -1870,6 +1870,7 @@ def run(ck: Check) -> None:
         "the order of module paths is the one Python's sorted(key=(len, path), reverse=True) yields (the harness sorts; the theorems only use deepest-first)",
         "the condition of the package-file extra dot is modelled on name lists (importer path is a prefix of the importee path); the code tests it on dotted strings with a trailing '.', which is the same for names without dots",
         "names of imports: the scoped resolver is modelled for the calls __change_from_import makes (add(path, name) with default flags; Model/Modules.Scope.add, compared with a real ModelResolver and with the recorded calls of every generated module); get_valid_field_name is a parameter of the theorem (identity on the class names met); the `module.Class` spelling of each use and the later passes (__collapse_root_models, __change_imported_model_name) are checked by oracle (5) only",
+        "the import block of a module under --collapse-root-models: WHICH appends and removals the passes make is taken from the real run (vlib/importledger records every Imports object of every generate() with --collapse-root-models); the recorded history is checked against C02's ledger model (driver imports.ledger) and the per-use discipline (c12_collapse.uses_discipline); Props/C12 import_line_survives_iff_use_remains is about disciplined histories",
         "oracle (5) tells classes by the set of members their class statement declares: generated documents give every definition a member of its own; references to root models (arrays) and documents with two equal member sets are outside it (counted as reach_skipped)",
         "Python NFKC-normalises identifiers in source text (import statements included) but not the strings given to importlib: the import oracle imports every module by its NFKC-normalised dotted name; NFKC fixes ASCII (checked on all 128 characters each run)",
     ]
